@@ -266,6 +266,14 @@ def main(argv):
         import selftest
         return selftest.mutants(argv[1:])
     if len(argv) == 2 and argv[1] in ("quick", "thorough"):
+        # run from a scratch working directory: code under test that creates directories or files from relative
+        # (simulated) paths must not litter /verif
+        import atexit
+        import shutil
+        cwd = "/dev/shm/cct-cwd-%d" % os.getpid()
+        os.makedirs(cwd, exist_ok=True)
+        os.chdir(cwd)
+        atexit.register(lambda p=cwd, me=os.getpid(): shutil.rmtree(p, ignore_errors=True) if os.getpid() == me else None)
         return check(argv[0], argv[1])
     err(__doc__)
     return 2
